@@ -6,7 +6,9 @@ import worker as W
 import timeouts as T
 
 PROP = 'C08'
-REPLAYERS = {'pool.Worker.workloop': 'replayers/workloop.py', 'pool.Pool._terminate_pool': 'replayers/terminate_pool.py'}
+VARIANTS = ['main', 'reap']
+REPLAYERS = {'pool.Worker.workloop': 'replayers/workloop.py', 'pool.Pool._terminate_pool': 'replayers/terminate_pool.py',
+             'pool.Pool._join_exited_workers': 'replayers/join_exited.py'}
 
 ASSUMPTIONS = [
     'the termination signal is modelled as arriving inside wait_for_job / wait_for_syn / the task / put (the points where the '
@@ -216,7 +218,14 @@ def ext_on_exit(ex, args, kw):
     return SNone()
 
 
-def build(w):
+def build(w, variant='main'):
+    if variant == 'reap':
+        # the finalizer behind terminate() holds the worker list, the cache and the registries it was given when the pool was
+        # made: the supervision tick must keep updating those very objects (C07's contract of the tick, with that clause)
+        import C07 as c07
+        reap = [c for c in c07.build(w, 'apply') if c.qualname.endswith('_join_exited_workers')][0]
+        reap.prop = PROP
+        return [reap]
     ps.declare(w)
     H.declare_handles(w)
     ps.declare_handlers(w)
@@ -320,7 +329,8 @@ MANIFEST_ENTRY = {
             'thread get exactly one sentinel each; the result thread is joined but never terminated (it keeps draining, so '
             'results already delivered stay intact); exactly the workers alive at the first test are signalled, once; exactly '
             'the workers still alive afterwards (with a process object) are joined, once, after the helper threads; both queues '
-            'are closed.',
+            'are closed.  The supervision tick (variant reap: the contract of C04/C07) updates the worker list, the cache and the '
+            'registries in place -- they stay the objects the finalizer was given when the pool was made.',
     'note': 'Bounded-time return of terminate() and "no thread running afterwards" are liveness and out of reach; '
             'of _terminate_pool the order and targets of the calls are proved, with the three overridable hooks of the class '
             '(_help_stuff_finish, _set_result_sentinel, _stop_task_handler) as assumed contracts; Worker.__call__ is not under '
